@@ -135,6 +135,7 @@ func checkC06(c *Ctx) {
 			}
 			var elems []*ssa.IndexAddr
 			okAll := true
+			viaHelper := false
 			var walk func(v ssa.Value, d int)
 			walk = func(v ssa.Value, d int) {
 				if d > 6 {
@@ -152,6 +153,71 @@ func checkC06(c *Ctx) {
 					} else {
 						okAll = false
 					}
+				case *ssa.Call:
+					// helper that returns an element of its slice parameter, given our candidate list
+					g := calleeFn(x.Common())
+					if g == nil || !isModFn(g) || g.Blocks == nil {
+						okAll = false
+						return
+					}
+					k := -1
+					for i, a := range x.Call.Args {
+						if a == ssa.Value(hosts) {
+							k = i
+						}
+					}
+					if k < 0 {
+						okAll = false
+						return
+					}
+					hp := g.Params[k]
+					hbc := newBoundsCtx(p, g)
+					for w := range nonNeg {
+						_ = w
+					}
+					eachInstr(g, func(_ *ssa.BasicBlock, _ int, in2 ssa.Instruction) {
+						if call2, ok := in2.(*ssa.Call); ok {
+							if u, ok := call2.Call.Value.(*ssa.UnOp); ok {
+								if gl, ok := u.X.(*ssa.Global); ok && randSourceNonNegative(p, gl) {
+									hbc.z.addLE(lconst(0), hbc.term(call2))
+								}
+							}
+						}
+					})
+					// the caller guarantees len(hosts) != 0 where it calls the helper?
+					cbz := bc.zoneAt(x.Block())
+					callerNonEmpty := cbz.entLE(lconst(1), bc.lenOf(hosts))
+					eachInstr(g, func(_ *ssa.BasicBlock, _ int, in2 ssa.Instruction) {
+						ret, ok := in2.(*ssa.Return)
+						if !ok {
+							return
+						}
+						rv := ret.Results[0]
+						if isNilConst(rv) {
+							return
+						}
+						ld, ok := rv.(*ssa.UnOp)
+						if !ok {
+							okAll = false
+							return
+						}
+						ia, ok := ld.X.(*ssa.IndexAddr)
+						if !ok || ia.X != ssa.Value(hp) {
+							okAll = false
+							return
+						}
+						if callerNonEmpty {
+							hbc.z.addLE(lconst(1), hbc.lenOf(hp))
+						}
+						ok2, w := hbc.proveIndex(ia, ia.X, ia.Index)
+						if ok2 {
+							c.OK("R2", site+" via "+g.Name(), ia.Pos(), "helper returns an element of the candidate list; "+w)
+							viaHelper = true
+						} else {
+							c.Fail("R2", site+" via "+g.Name(), ia.Pos(), "index into the candidate list has no witness in helper "+g.Name()+": "+w)
+							viaHelper = true
+						}
+					})
 				default:
 					if !isNilConst(v) {
 						okAll = false
@@ -159,6 +225,9 @@ func checkC06(c *Ctx) {
 				}
 			}
 			walk(v, 0)
+			if okAll && viaHelper && len(elems) == 0 {
+				return
+			}
 			if !okAll || len(elems) == 0 {
 				c.Fail("R2", site, ret.Pos(), "the balancer can return a host that is not an element of the candidate list it was given (cached or otherwise obtained)")
 				return
@@ -270,9 +339,21 @@ func checkC06(c *Ctx) {
 						continue
 					}
 					// receiver is the picked host (captured)
+					// the receiver is the picked host: a captured variable whose cell holds the PickHost result
 					recvOK := derives(call.Call.Args[0], func(v ssa.Value) bool {
 						fv, ok := v.(*ssa.FreeVar)
-						return ok && fv.Name() == "host"
+						if !ok {
+							return false
+						}
+						b := cellKey(fv)
+						if al, isAl := b.(*ssa.Alloc); isAl {
+							for _, r := range *al.Referrers() {
+								if st, isSt := r.(*ssa.Store); isSt && st.Addr == ssa.Value(al) && st.Val == ssa.Value(pick) {
+									return true
+								}
+							}
+						}
+						return b == ssa.Value(pick)
 					})
 					cb := selectCaseBlock(sel, k)
 					ncl := 0
